@@ -42,11 +42,10 @@ def replay_kani(d):
     common.copy_repo(scratch)
     cm = []
     for m in mods:
-        if "*" in m["configs"] or cfg in m["configs"]:
-            if m["stem"] in needed or m.get("always") or m["stem"] == "support":
-                mm = dict(m)
-                mm["configs"] = [cfg]
-                cm.append(mm)
+        if m["stem"] in needed or (("*" in m["configs"] or cfg in m["configs"]) and (m.get("always") or m["stem"] == "support")):
+            mm = dict(m)
+            mm["configs"] = [cfg]
+            cm.append(mm)
     K.annotate(scratch, cm, cfg)
     res = K.run_playback_test(scratch, cfg, d["harness_module"] + ".rs", pb["test_code"], pb["test"], pb.get("harness_short"))
     print("replayed %s natively: ran=%s failed=%s" % (pb["test"], res["native_ran"], res["native_failed"]))
